@@ -106,4 +106,27 @@ theorem ticks_measure (X : Exec) {N : Nat} (hc : X.CallsStopAt N) (d : Nat) {n :
         rw [hnil] at hl
         exact hq' (List.eq_nil_of_length_eq_zero hl.symm)
 
+/-- the execution that attempts the events of a list, one per tick, and then rests -/
+def execC (s0 : State) (es : List Event) : Nat → State
+  | 0 => s0
+  | n + 1 => match es[n]? with
+    | none => execC s0 es n
+    | some e => (step repaired (execC s0 es n) e).getD (execC s0 es n)
+
+def Exec.ofList (s0 : State) (h : Reachable repaired s0) (es : List Event) : Exec :=
+  ⟨execC s0 es, fun n => es[n]?, h, fun _ => rfl⟩
+
+theorem execC_rest (s0 : State) (es : List Event) (n : Nat) (hn : es.length ≤ n) :
+    execC s0 es n = execC s0 es es.length := by
+  induction n with
+  | zero => have : es.length = 0 := by omega
+            rw [this]
+  | succ n ih =>
+    rcases Nat.lt_or_ge n es.length with h | h
+    · have : es.length = n + 1 := by omega
+      rw [this]
+    · have hnone : es[n]? = none := List.getElem?_eq_none h
+      simp only [execC, hnone]
+      exact ih h
+
 end Ecal.Pool
